@@ -8,7 +8,9 @@ import (
 )
 
 // an error result; a proof request whose calls all failed (pf(none,..)) counts as an error
-func isErrRes(r string) bool { return strings.HasPrefix(r, "err") || strings.HasPrefix(r, "pf(none") || strings.HasPrefix(r, "pf(getproof") }
+func isErrRes(r string) bool {
+	return strings.HasPrefix(r, "err") || strings.HasPrefix(r, "pf(none") || strings.HasPrefix(r, "pf(getproof")
+}
 
 func isWriteOp(op []string) bool {
 	switch op[0] {
